@@ -1,0 +1,63 @@
+//go:build verif
+
+// Contracts for the gowp verifier (/verif): comment-only file, compiled only with -tags verif.
+// Service-side AP-REQ verification (property C01, RFC 4120 3.2.3). kmatch is defined with the keytab contracts,
+// names_equal / addr_in / flagset with the types contracts, krb_dec_ok in /verif/spec/etype.smt2.
+package messages
+
+// key usage of the authenticator: 7 in a TGS-REQ (service krbtgt), 11 otherwise (RFC 4120 7.5.1)
+//@ define auth_usage(sn) := ite(len(sn.NameString) > 0 && sn.NameString[0] == "krbtgt", uint32(7), uint32(11))
+
+//@ func messages.authenticatorKeyUsage(pn) (r)
+//@   pure
+//@   ensures uint32(r) == auth_usage(pn) && r >= 0 && r < 4294967296
+
+//@ func (*messages.Ticket).Valid(t, d) (ok, err)
+//@   pure
+//@   ensures ok ==> err == nil
+//@   ensures ok <==> !(t.DecryptedEncPart.StartTime.Sub(now#1) > d) && !flagset(t.DecryptedEncPart.Flags, 7) && !((now#1).Sub(t.DecryptedEncPart.EndTime) > d)
+
+//@ func (*messages.Ticket).Decrypt(t, key) (err)
+//@   modifies t.DecryptedEncPart
+//@   trusted_frame the decoded structure is filled through the reflection-driven ASN.1 codec
+//@   ensures err == nil ==> krb_dec_ok(key.KeyType, bytes(key.KeyValue), 2, bytes(t.EncPart.Cipher))
+//@   ensures err != nil ==> t.DecryptedEncPart == old(t.DecryptedEncPart)
+
+//@ func (*messages.Ticket).DecryptEncPart(t, kt, sname) (err)
+//@   modifies t.DecryptedEncPart
+//@   trusted_frame see Decrypt
+//@   ensures err == nil ==> exists j int :: 0 <= j && j < len(kt.Entries)
+//@        && kmatch(kt.Entries[j], ite(sname != nil, *sname, t.SName), t.Realm, t.EncPart.KVNO, t.EncPart.EType)
+//@        && krb_dec_ok(kt.Entries[j].Key.KeyType, bytes(kt.Entries[j].Key.KeyValue), 2, bytes(t.EncPart.Cipher))
+//@   ensures err != nil ==> t.DecryptedEncPart == old(t.DecryptedEncPart)
+
+//@ func (*messages.APReq).DecryptAuthenticator(a, sessionKey) (err)
+//@   modifies a.Authenticator
+//@   trusted_frame the decoded structure is filled through the reflection-driven ASN.1 codec
+//@   ensures err == nil ==> krb_dec_ok(sessionKey.KeyType, bytes(sessionKey.KeyValue), auth_usage(a.Ticket.SName), bytes(a.EncryptedAuthenticator.Cipher))
+
+// Soundness direction of RFC 4120 3.2.3: success implies every check of the statement.
+// now#1 is the clock reading of the ticket validity check, now#2 that of the authenticator skew check.
+//@ func (*messages.APReq).Verify(a, kt, d, cAddr, snameOverride) (ok, err)
+//@   modifies a.Ticket.DecryptedEncPart, a.Authenticator
+//@   trusted_frame see Decrypt
+//@   ensures ok ==> err == nil
+//@   ensures ok ==> exists j int :: 0 <= j && j < len(kt.Entries)
+//@        && kmatch(kt.Entries[j], ite(snameOverride != nil, *snameOverride, a.Ticket.SName), a.Ticket.Realm, a.Ticket.EncPart.KVNO, a.Ticket.EncPart.EType)
+//@        && krb_dec_ok(kt.Entries[j].Key.KeyType, bytes(kt.Entries[j].Key.KeyValue), 2, bytes(a.Ticket.EncPart.Cipher))
+//@   ensures ok ==> !(a.Ticket.DecryptedEncPart.StartTime.Sub(now#1) > d) && !((now#1).Sub(a.Ticket.DecryptedEncPart.EndTime) > d)
+//@   ensures ok ==> !flagset(a.Ticket.DecryptedEncPart.Flags, 7)
+//@   ensures ok ==> len(a.Ticket.DecryptedEncPart.CAddr) == 0 || addr_in(a.Ticket.DecryptedEncPart.CAddr, cAddr)
+//@   ensures ok ==> krb_dec_ok(a.Ticket.DecryptedEncPart.Key.KeyType, bytes(a.Ticket.DecryptedEncPart.Key.KeyValue), auth_usage(a.Ticket.SName), bytes(a.EncryptedAuthenticator.Cipher))
+//@   ensures ok ==> names_equal(a.Authenticator.CName, a.Ticket.DecryptedEncPart.CName)
+//@   ensures ok ==> a.Authenticator.CRealm == a.Ticket.DecryptedEncPart.CRealm
+//@   ensures ok ==> !((now#2).Sub(a.Authenticator.CTime.Add(int64(a.Authenticator.Cusec) * 1000)) > d)
+//@        && !(a.Authenticator.CTime.Add(int64(a.Authenticator.Cusec) * 1000).Sub(now#2) > d)
+
+//@ func messages.NewKRBError(sname, realm, code, etext) (r)
+//@   pure
+//@   ensures r.ErrorCode == code && r.MsgType == 30 && r.PVNO == 5 && r.SName == sname && r.Realm == realm && r.EText == etext
+
+//@ func (*messages.Ticket).GetPACType(t, kt, sname, l) (isPAC, pac, err)
+//@   pure
+//@   trusted_frame decoding works on copies; the ticket, keytab and settings are only read
